@@ -167,6 +167,9 @@ def run(ctx, rep):
     used_parity_rule(P, rep, 'R-C01-10')
     always_processed_rule(P, rep, 'R-C01-14')
     modified_file_flagged_rule(P, rep, 'R-C01-15')
+    C04.rehash_pairing_rule(P, rep, 'R-C01-17')
+    from .carried import nullable_array_rule
+    nullable_array_rule(P, rep, 'R-C01-16')
     # the tests of recorded empty files, hardlinks and directories look at the entry itself: a symbolic link planted on the path
     # (to any empty file / any directory / the link target) must not pass for the recorded entity
     from .C18 import nofollow_probe_rule
